@@ -4,6 +4,7 @@
 import ElfVerif.Props.C09
 import ElfVerif.Props.C16
 import ElfVerif.Lemmas.SymVerComplete
+import ElfVerif.Lemmas.SymVerEnc
 namespace Elf.C13
 
 /-- what `findAux` returns is an aux record of the iterated chain with the wanted index -/
@@ -303,5 +304,62 @@ example : RecChain VerDef.ep VerDef.vd_cnt VerDef.vd_aux VerDef.vd_next true .EL
   RecChain.step 0 0 (⟨0, 2, 1, 0x1234, 20, 0⟩ : VerDef) [] (by decide) (by decide) (by decide) (Or.inl rfl) (RecChain.done _)
 example : AuxChain VerDefAux.ep VerDefAux.vda_next true .ELF64 exDefs 1 20 [⟨1, 0⟩] :=
   AuxChain.step 0 20 (⟨1, 0⟩ : VerDefAux) [] (by decide) (by decide) (Or.inl rfl) (AuxChain.done _)
+
+/-! ## From the bytes: sections laid out per the GNU ABI
+
+  `EncNeeds` / `EncDefs` / `EncDefAuxs` (Lemmas/SymVerEnc.lean) are stated on the bytes: at each record's
+  offset the window holds the ABI encoding of the record's fields (revision word 1, 16- and 32-bit fields
+  in the file's byte order), records are linked by their `next` offsets and point to their auxiliary
+  chain by `aux`, in any forward layout.  With C02's structure-level round trip these imply the chain
+  predicates above, so the completeness theorems hold for every such byte layout. -/
+
+/-- **Requirement, from the bytes**: for a `.gnu.version_r` whose bytes are `count` Verneed records and
+    their Vernaux chains laid out per the GNU ABI, the answer for symbol `i` is the first auxiliary
+    record in traversal order with `vna_other = versym[i] mod 2^15`, `None` if there is none. -/
+theorem requirement_on_abi_layout (t : SymbolVersionTable) (i verNdx : Nat) (strs : Slice)
+    (le : Bool) (cls : Class) (data : Slice) (count : Nat) (recs : List (VerNeed × List VerNeedAux))
+    (hv : t.verneeds = some (⟨le, cls, count, data, 0⟩, strs)) (hne : data.isEmpty = false)
+    (hlen : data.len < 2 ^ 63) (hidx : t.versionIds.get i = .ok verNdx)
+    (hb : EncNeeds le data count 0 recs) :
+    t.getRequirement i =
+      match firstReq (verNdx % 2 ^ 15) recs with
+      | none => .ok none
+      | some (vn, vna) =>
+        (strGet strs vn.vn_file).bind fun file =>
+        (strGet strs vna.vna_name).bind fun name =>
+        .ok (some ⟨file, name, vna.vna_hash, vna.vna_flags, VersionIndex.isHidden verNdx⟩) :=
+  get_requirement_complete t i verNdx strs le cls data count recs hv hne hidx (hb.toChain cls hlen)
+
+/-- **Definition, from the bytes**: for a `.gnu.version_d` whose bytes are `count` Verdef records laid
+    out per the GNU ABI, the answer for symbol `i` is the first definition in traversal order with
+    `vd_ndx = versym[i] mod 2^15` (hash, flags, hidden bit, aux iterator at `vd_aux`), `None` if none. -/
+theorem definition_on_abi_layout (t : SymbolVersionTable) (i verNdx : Nat) (strs : Slice)
+    (le : Bool) (cls : Class) (data : Slice) (count : Nat) (recs : List (VerDef × VerIter))
+    (hv : t.verdefs = some (⟨le, cls, count, data, 0⟩, strs)) (hne : data.isEmpty = false)
+    (hlen : data.len < 2 ^ 63) (hidx : t.versionIds.get i = .ok verNdx)
+    (hb : EncDefs le cls data count 0 recs) :
+    t.getDefinition i =
+      .ok ((firstDef (verNdx % 2 ^ 15) recs).map fun x =>
+        ⟨x.1.vd_hash, x.1.vd_flags, x.2, strs, VersionIndex.isHidden verNdx⟩) :=
+  get_definition_complete t i verNdx strs le cls data count recs hv hne hidx (hb.toChain hlen)
+
+/-- **Ordered names, from the bytes**: the names of a definition whose Verdaux records are laid out per
+    the GNU ABI are the strings at their `vda_name`, in chain order. -/
+theorem definition_names_on_abi_layout (d : SymbolDefinition) (le : Bool) (cls : Class) (data : Slice)
+    (count off : Nat) (auxs : List VerDefAux)
+    (hn : d.names = ⟨le, cls, count, data, off⟩) (hne : data.isEmpty = false) (hlen : data.len < 2 ^ 63)
+    (hb : EncDefAuxs le data count off auxs) :
+    d.collectNames = .ok (auxs.map fun a => strGet d.strtab a.vda_name) :=
+  definition_names_complete d le cls data count off auxs hn hne (hb.toChain cls hlen)
+
+/- Non-vacuity: the 28 example bytes are such a layout. -/
+example : EncDefs true .ELF64 exDefs 1 0 [(⟨0, 2, 1, 0x1234, 20, 0⟩, ⟨true, .ELF64, 1, exDefs, 20⟩)] :=
+  EncDefs.step 0 0 (⟨0, 2, 1, 0x1234, 20, 0⟩ : VerDef) [] (by decide) (by unfold VerDef.InRange; decide)
+    (by simp [encDef, C02.encodeFields, C04.encodeLE, C04.HoldsAt, Ty.width, Slice.byte, exDefs, Slice.ofArray])
+    (Or.inl rfl) (EncDefs.done _)
+example : EncDefAuxs true exDefs 1 20 [⟨1, 0⟩] :=
+  EncDefAuxs.step 0 20 (⟨1, 0⟩ : VerDefAux) [] (by decide) (by unfold VerDefAux.InRange; decide)
+    (by simp [encDefAux, C02.encodeFields, C04.encodeLE, C04.HoldsAt, Ty.width, Slice.byte, exDefs, Slice.ofArray])
+    (Or.inl rfl) (EncDefAuxs.done _)
 
 end Elf.C13
